@@ -358,8 +358,12 @@ def ml_eval(expr, env):
         return {"kind": "rep", "elem": ml_eval(m.group(1), env), "n": int(m.group(2))}
     if re.fullmatch(r"RTMA(\.\w+)+", expr):
         return ml_get(env, expr.split(".")[1:], expr)
-    if (expr.startswith('"') and expr.endswith('"')) or (expr.startswith("'") and expr.endswith("'")):
-        return {"kind": "str", "v": expr[1:-1]}
+    if len(expr) >= 2 and expr[0] in "\"'" and expr[-1] == expr[0]:
+        # MATLAB string / char literal: the delimiter inside the text is written twice; a lone one ends the literal
+        q, body = expr[0], expr[1:-1]
+        if q in body.replace(q + q, ""):
+            raise MatlabError(f"malformed string literal (unescaped {q} inside): {expr[:80]!r}")
+        return {"kind": "str", "v": body.replace(q + q, q)}
     try:
         return {"kind": "num", "v": int(expr)}
     except ValueError:
